@@ -215,6 +215,13 @@ class Keyed:
         self.rep, self.best, self.count = rep, {}, collections.Counter()
 
     def add(self, key, what, replay, weight=0.0):
+        # representative of a class: pair-level before path-level, sizes near 1 first
+        try:
+            weight = abs(math.log10(weight)) if weight > 0 else 0.0
+        except Exception:
+            weight = 0.0
+        if replay.get('kind') == 'path':
+            weight += 100.0
         self.count[key] += 1
         if key not in self.best or weight < self.best[key][2]:
             self.best[key] = (what, replay, weight)
@@ -225,6 +232,12 @@ class Keyed:
             replay = dict(replay); replay['occurrences_in_this_run'] = self.count[key]
             self.rep.violation(what, replay, key=key)
         self.rep.cov['violations_by_key'] = dict(self.count)
+        # rep.finish() prints at most five replays: keep a one-line summary and a reproducer of every class here
+        self.rep.cov['violation_classes'] = {
+            key: {'what': self.best[key][0], 'occurrences': self.count[key],
+                  'reproducer': {k: v for k, v in self.best[key][1].items()
+                                 if k in ('seg1_repr', 'seg2_repr', 'path1_repr', 'path2_repr', 'tol', 'crossing', 'returned', 'pair')}}
+            for key in sorted(self.best)}
 
 
 def gen_pairs(rng, per):
@@ -590,7 +603,7 @@ def run(rep, tier, seed, replay=None):
                 run_pairs(rep, K, tmp, [(d1, d2, {'config': r.get('config', 'replay')})], secs)
             K.flush()
             return
-        per = (4 if quick else 40) * boost
+        per = (6 if quick else 40) * boost
         pairs = gen_pairs(rng, per)
         stats, nontriv, nq, nb, nfail = run_pairs(rep, K, tmp, pairs, secs)
         n1, e1 = tie_lineline(rng, K, tmp, (150 if quick else 1500) * boost)
